@@ -79,6 +79,72 @@ impl PairRx {
 static PAIR_JOB: std::sync::Mutex<Option<PairJob>> = std::sync::Mutex::new(None);
 static PAIR_STATE: std::sync::Mutex<Option<PairState>> = std::sync::Mutex::new(None);
 
+/// Events a parked reader sends to the simulator thread.
+pub enum ReaderEvent {
+    Parked,
+    Done(String),
+}
+thread_local! {
+    /// (iterations left until parking, parked signal, release)
+    static READER_PARK: std::cell::RefCell<Option<(u64, std::sync::mpsc::Sender<ReaderEvent>, std::sync::mpsc::Receiver<()>)>> = std::cell::RefCell::new(None);
+}
+
+/// Runs the reader `job` on a second thread and parks it at its `park_at`-th iteration hook.
+/// Returns the event channel, the release sender and the join handle.
+pub fn spawn_parked_reader(
+    job: PairJob,
+    park_at: u64,
+) -> (
+    std::sync::mpsc::Receiver<ReaderEvent>,
+    std::sync::mpsc::Sender<()>,
+    std::thread::JoinHandle<()>,
+) {
+    let (etx, erx) = std::sync::mpsc::channel();
+    let (rtx, rrx) = std::sync::mpsc::channel();
+    let handle = std::thread::Builder::new()
+        .stack_size(16 << 20)
+        .spawn(move || {
+            entropy::install(job.seed);
+            READER_PARK.with(|p| *p.borrow_mut() = Some((park_at, etx.clone(), rrx)));
+            let r = std::panic::catch_unwind(std::panic::AssertUnwindSafe(|| {
+                job.io.handle_request_sync(&job.request).unwrap_or_default()
+            }));
+            READER_PARK.with(|p| *p.borrow_mut() = None);
+            entropy::uninstall();
+            let _ = etx.send(ReaderEvent::Done(match r {
+                Ok(s) => s,
+                Err(_) => "UNWOUND".to_string(),
+            }));
+        })
+        .expect("spawn reader thread");
+    (erx, rtx, handle)
+}
+
+fn reader_iteration_hook() {
+    let parked = READER_PARK.with(|p| {
+        let mut p = p.borrow_mut();
+        match p.as_mut() {
+            Some((left, _, _)) if *left > 1 => {
+                *left -= 1;
+                None
+            }
+            Some((left, _, _)) if *left == 1 => {
+                *left = 0;
+                p.take()
+            }
+            _ => None,
+        }
+    });
+    if let Some((_, etx, rrx)) = parked {
+        let _ = etx.send(ReaderEvent::Parked);
+        // parked: wait until the simulator has run the writer (or gives up after 30 s)
+        let _ = rrx.recv_timeout(std::time::Duration::from_secs(30));
+        // keep the event sender alive for the final Done message
+        READER_PARK.with(|p| *p.borrow_mut() = None);
+        std::mem::drop(etx);
+    }
+}
+
 pub fn spawn_pair(job: PairJob) -> PairRx {
     let (tx, rx) = std::sync::mpsc::channel();
     let handle = std::thread::Builder::new()
@@ -133,6 +199,9 @@ fn install_write_hook() {
         return;
     }
     crate::verif_hooks::install(Some(std::sync::Arc::new(|p| {
+        if let crate::verif_hooks::Point::Iter(_) = p {
+            reader_iteration_hook();
+        }
         if let crate::verif_hooks::Point::BeforeWrite(site) = p {
             let n = WRITES.fetch_add(1, Ordering::SeqCst) + 1;
             let _ = WRITE_SITES.try_with(|w| w.borrow_mut().push(site));
@@ -236,7 +305,7 @@ fn flag_u64(plan: &Plan, k: &str) -> Option<u64> {
     plan.flags.iter().find_map(|f| f.strip_prefix(k).and_then(|v| v.parse::<u64>().ok()))
 }
 
-pub const PAIR_OPS: [&str; 8] = [
+pub const PAIR_OPS: [&str; 9] = [
     "set_scripts(all,[lock0@0])",
     "set_scripts(partial,[lock1@initial/3])",
     "set_scripts(delete,[lock0])",
@@ -245,6 +314,7 @@ pub const PAIR_OPS: [&str; 8] = [
     "get_cells_capacity(lock0)",
     "get_cells(lock0)",
     "set_scripts(partial,[lock0@initial/2+1,lock1@0])",
+    "get_transactions(lock0)",
 ];
 
 /// C17: one case = (history, write boundary K of the operation A that issues it, operation B).
@@ -254,7 +324,7 @@ pub const PAIR_OPS: [&str; 8] = [
 /// both threads must finish.
 pub fn execute_pair(plan: &Plan, verbose: bool) -> Outcome {
     let slot = flag_u64(plan, "pair_slot=").unwrap_or(0);
-    let op = flag_u64(plan, "pair_op=").unwrap_or(0) % 8;
+    let op = flag_u64(plan, "pair_op=").unwrap_or(0) % 9;
     let mut bp = plan.clone();
     bp.flags.retain(|f| !f.starts_with("pair_"));
     bp.flags.push("record_writes".into());
@@ -343,6 +413,53 @@ pub fn execute_pair(plan: &Plan, verbose: bool) -> Outcome {
                 stats.insert("probe.c17.reader_saw_state_between_two_writes_of_A".into(), 1);
             }
         }
+    }
+    // Readers: a fourth execution parks the reader inside its query (at one of its iteration
+    // points), runs A to completion and lets the reader finish: its answer must be the one it
+    // gives before A or the one it gives after A (an index and a tip from one point in time).
+    if matches!(op, 5 | 6 | 8) && out.harness_error.is_none() {
+        // ... and, so that both the index and the tip can move while the reader is parked, A is
+        // followed by `span` further events of the history (0, 25 or 50)
+        let span = (slot % 3) * 25;
+        let run = |mode: &str| {
+            let mut p = plan.clone();
+            p.flags.retain(|f| !f.starts_with("pair_"));
+            p.flags.push(format!("pair_event={}", e));
+            p.flags.push(format!("pair_write={}", k));
+            p.flags.push(format!("pair_mode={}", mode));
+            p.flags.push(format!("pair_op={}", op));
+            p.flags.push(format!("pair_span={}", span));
+            execute_one(&p, false)
+        };
+        let after_span = if span == 0 { None } else { Some(run("after_span")) };
+        let mid = run("reader_mid");
+        for o in std::iter::once(&mid).chain(after_span.iter()) {
+            if out.harness_error.is_none() {
+                out.harness_error = o.harness_error.clone();
+            }
+        }
+        for v in mid.violations.iter().filter(|v| v.property == "C17") {
+            out.violations.push(v.clone());
+        }
+        let ref_after = after_span.as_ref().map(|o| &o.pair_answer).unwrap_or(&after.pair_answer);
+        if let (Some((_, rb)), Some((_, ra)), Some((parked, rm))) = (&before.pair_answer, ref_after, &mid.pair_answer) {
+            if *parked {
+                stats.insert("probe.c17.reader_parked_inside_its_query".into(), 1);
+                if rb != ra {
+                    stats.insert("probe.c17.reader_answer_depends_on_what_ran_meanwhile".into(), 1);
+                }
+            }
+            if rm != rb && rm != ra {
+                out.violations.push(Violation {
+                    property: "C17".into(),
+                    clause: "reader_answer_from_no_single_point_in_time".into(),
+                    detail: format!("{} followed by {} more events: the reader was parked inside its query meanwhile; its answer {} ; before {} ; after {}", what, span, rm, rb, ra),
+                    at_event: e,
+                    at_time: out.vtime,
+                });
+            }
+        }
+        out.events += mid.events;
     }
     out.stats = stats;
     // the three executions are functions of the plan; whether B was seen blocked is too, on
